@@ -53,6 +53,8 @@ func (World) Assumptions(string) []string {
 	return []string{
 		"the property is about conservation, not the fee formula: the fee amounts come from the real economicsData of the run (success: ComputeMoveBalanceFee(tx), which processTxFee charges for an intra-shard move-balance; insufficient funds: ComputeTxFee(tx), which executingFailedTransaction charges)",
 		"outcome classes are read from ProcessTransaction's result as the block processor reads them: nil = success, ErrFailedTransaction = failed-but-charged (kept in the block, no revert), any other error = rejected (reverted to the journal snapshot)",
+		"whether a transaction is 'a failure for insufficient funds' is PREDICTED from the inputs, not read off the returned error: nonce equal to the account nonce, real economicsData.CheckValidityTxValues accepts it, balance >= ComputeTxFee(tx) and balance < value + min(ComputeMoveBalanceFee, ComputeTxFee); then the outcome must be the charged failure (fee only, nonce +1, receiver unchanged), for sender != receiver and sender == receiver; under a fired get_error a plain rejection is also accepted",
+		"left unasserted because the statement does not say which fee enters 'value plus fee': balances in [value+ComputeMoveBalanceFee, value+gasLimit*gasPrice), where the unchanged code succeeds or fails depending on the penalized-too-much-gas / gas-price-modifier flags; balance < ComputeTxFee, wrong nonce and invalid gas are not predicted either (nothing can be charged there; whatever is returned is checked for 'no change')",
 		"a failed-but-charged outcome counts as 'failure for insufficient funds' only if balance < value + gasLimit*gasPrice (the most demanding cost reading); otherwise it is reported as charged-failure-with-sufficient-funds",
 		"a non-existing account is read as balance 0 / nonce 0",
 		"fee collector = fees of closed blocks (read at commit, then CreateBlockStarted) + current accumulator",
@@ -64,7 +66,7 @@ func (World) Assumptions(string) []string {
 
 func (World) Rule(string) string {
 	return "2-4 user accounts (one may not exist yet) plus 0-12 bystander accounts in a committed genesis, balances around multiples of minGasLimit*minGasPrice (0, exactly one fee, +-1, huge); economics drawn per run (min gas price 1/10/1e9, min gas limit 1/500/50000, gas per byte 0/1/1500, modifier 0.01/0.5/1, max gas per block), enable epochs of penalized-too-much-gas / gas-price-modifier / meta-protection / relayed drawn 0-3 and a start epoch, trie level in memory 1-5, storer cache 1-100, four address layouts (one deep: alternating branch/extension nodes so that commits collapse nodes and transactions read the disk); " +
-		"5-40 transactions: value absolute (0, 1, fee-sized, above total supply, too many bytes) or relative to the sender balance (balance - fee +-k for three fee readings, balance + k), gas price min+k / below min / absolute, gas limit required+k / required-1 / at the block limit, data 0-12 bytes, nonce equal / lower / +1 / +7, sender==receiver; epoch changes, commit (end of block), commit+restart from the root; " +
+		"5-40 transactions: value absolute (0, 1, fee-sized, above total supply, too many bytes) or relative to the sender balance (balance - fee +-k for three fee readings, balance + k), gas price min+k / below min / absolute, gas limit required+k / required-1 / at the block limit, data 0-12 bytes, nonce equal / lower / +1 / +7, sender==receiver; up to 25% of the transactions of a run aim at the insufficient-funds window (correct nonce, valid gas, value = balance - fee + k), half of them as self transfers; epoch changes, commit (end of block), commit+restart from the root; " +
 		"arm get_error fails the n-th (0-3) disk read inside ProcessTransaction on 10-50% of the transactions (that arm commits and restarts more often and keeps 1-3 trie levels in memory, so reads are cold); after every transaction the oracle reads sender and receiver only, every account is swept at the end of each block, before each restart and at the end of the run; " +
 		"non-trivial = at least one successful transfer and at least one charged failure or rejection; distinct = hash of full plan"
 }
